@@ -128,6 +128,14 @@ def check_case(case):
             with warnings.catch_warnings():
                 warnings.simplefilter("ignore")
                 f.coerceElement(pre)
+        for pid in case.get("pubids", []):   # public identifiers / comments coerced earlier by the same filter object
+            with warnings.catch_warnings():
+                warnings.simplefilter("ignore")
+                try:
+                    f.coercePubid(pid)
+                    f.coerceComment(pid)
+                except Exception:
+                    pass
         if case.get("tostring_before", 0) > _TS_N[0]:
             # replay of a failure that needs history: that many distinct names had gone through tostring() in the process before
             import xml.etree.ElementTree as ET
@@ -276,8 +284,19 @@ def run_shard(desc, seed, tier):
 
         def fn(name):
             as_attr = len(name) % 2 == 0
+            # the same filter object also coerces public identifiers and comments between names (that is how a tree builder uses it):
+            # here the name's own first character and the name itself, as a public identifier
+            pubids = [name[:1], name]
+            with warnings.catch_warnings():
+                warnings.simplefilter("ignore")
+                for pid in pubids:
+                    try:
+                        f.coercePubid(pid)
+                        f.coerceComment(pid)
+                    except Exception:
+                        pass
             v = check_name(f, name, as_attr)
-            case = {"kind": "name", "name": name, "attr": as_attr}
+            case = {"kind": "name", "name": name, "attr": as_attr, "pubids": pubids}
             if v.status == "fail" and v.bucket.startswith("tostring"):
                 case["tostring_before"] = _TS_N[0]
             acc.add(case, v)
